@@ -512,6 +512,13 @@ def run_leaf_property(ctx, spec):
                 tie_bad.append((r, desc))
             if len(samples) < 4 and nontriv and total % 97 == 1:
                 samples.append(desc[:400])
+    if spec.get("extra"):
+        pb, tb, n, nd, h2 = spec["extra"](ctx)
+        prop_bad += pb
+        tie_bad += tb
+        total += n
+        distinct |= nd
+        hist.update(h2)
     ctx.add_cases(total, len(distinct), traces=total, hist=hist, samples=samples)
     ctx.cover["rule"] = spec["rule"]
     if prop_bad:
@@ -552,11 +559,41 @@ def check_C15(ctx):
     return run_leaf_property(ctx, spec)
 
 
+def _c19_unmarshal_errors(ctx):
+    """Whole messages on the malformed stream: the error Unmarshal returns names the field the model's decoder fails at, with
+    the same class (wrong wire type / unparsable value / ...). The model's fail sites carry the field by construction."""
+    prop_bad, tie_bad, total, distinct, hist = [], [], 0, set(), {"unmarshal_error": {}}
+    for sname, args in (("decb", ["decb", ctx.seed + 9, _n(ctx, 6000, 60000)]), ("deep", ["deep", ctx.seed])):
+        for r in parse_rows(E.run_suite(ctx, sname + "_c19", args)):
+            if r["suite"] != "dec":
+                continue
+            total += 1
+            ms = r["model"].get("st", "?")
+            if ms == "skipped":
+                continue
+            k = r["ist"] if r["ist"] in ("ok", "PANIC") else "err:" + r["ist"].split(":")[-1]
+            hist["unmarshal_error"][k] = hist["unmarshal_error"].get(k, 0) + 1
+            distinct.add("dec|" + r["key"] + "|" + r["hex"][:400])
+            if r["ist"] == ms:
+                continue
+            desc = "Unmarshal of %s into %s returns %r; the decoder model fails with %s" % (r["hex"][:300], r["key"], r["st"][:200], ms)
+            mm = _re.match(r"err:(-?\d+):(wire|parse)$", ms)
+            if mm and mm.group(1) != "0" and r["ist"].startswith("err:"):
+                # the offending known field is not named (or its class is wrong): the property itself fails, on this input
+                prop_bad.append(({"suite": "dec", "cols": [r["key"], r["hex"][:4000], r["st"]], "model": [ms]}, desc))
+            else:
+                tie_bad.append((r, desc))
+    return prop_bad, tie_bad, total, distinct, hist
+
+
 def check_C19(ctx):
     return run_leaf_property(ctx, dict(
         theorems=["C19_str", "C19_err_wire"],
         suites=lambda c: [("fnstr", ["fnstr", c.seed, _n(c, 3000, 200000)]), ("readers", ["readers", c.seed])],
-        rule="FieldNumber.String on boundaries (0, +-10^k+-1, Min/MaxInt32) and random int32 against strconv.Itoa; reader grid compares (field, class) of every error; non-trivial = non-zero"))
+        extra=_c19_unmarshal_errors,
+        rule="FieldNumber.String on boundaries (0, +-10^k+-1, Min/MaxInt32) and random int32 against strconv.Itoa; reader grid compares (field, class) of every error; "
+             "whole messages: 6000 malformed inputs (truncations, wrong wire types, damaged lengths and groups) and the deep-nesting inputs through Unmarshal - the returned error's "
+             "field number and class equal the decoder model's; non-trivial = non-zero"))
 
 
 def check_C14(ctx):
